@@ -561,6 +561,6 @@ def plan(tier):
     ]
   return [
     Enum("direct-grid", lambda: enum_direct("thorough"), shards=16),
-    Hyp("direct-generated", _direct, examples=200000, shards=16),
-    Hyp("tables", lambda: _table(16), examples=20000, shards=16),
+    Hyp("direct-generated", _direct, examples=600000, shards=16),
+    Hyp("tables", lambda: _table(16), examples=60000, shards=16),
   ]
